@@ -227,8 +227,10 @@ def r2(ctx, r):
             n = e.node
             if n.get("k") == "call" and last(n.get("callee", "")) in NUM_PARSERS and (n.get("callee", "").startswith("std::") or "::" not in n.get("callee", "")):
                 sites.append((f, e))
-    if len(sites) < 3:
-        raise AnalysisBroken("only %d numeric parse sites found in the HTTP files (floor 3)" % len(sites))
+    # (sites of the non-throwing std::from_chars are counted by their own clause below; together they are the numeric parse sites)
+    nfc = sum(1 for f in fb.functions if f.ok and f.file.endswith((HSF, HCF, HMF)) for e in f.stmts() if e.node.get("k") == "call" and last(e.node.get("callee", "")) == "from_chars")
+    if len(sites) + nfc < 5:
+        raise AnalysisBroken("only %d numeric parse sites found in the HTTP files (floor 5: 3 sto*, 2 from_chars today)" % (len(sites) + nfc))
     for (f, e) in sites:
         n = e.node
         nm = last(n["callee"])
@@ -445,6 +447,26 @@ def r3(ctx, r):
         ok = cap_test(capb[0])[0] in (">", ">=") and dominated_by_edge(ex, fr[0], capb[0], 1, eh=False) and search(ex, app[0], lambda x: x is app[0], stop=lambda x: x.block is capb[0], eh=False) is None \
             and any(e.kind == "stmt" and e.node.get("k") == "throw" for e in _reach_until_ret(ex, capb[0].succs[0]))
     r.expect(ok, ex, app[0] if app else None, "client response cap", "the client appends received bytes and frames / receives again without testing the accumulated size against effectiveCap", okdesc="client: cap tested after every append, before framing")
+    # that one test bounds everything only because the raw buffer keeps every byte of the message: the decoded chunked body
+    # (ChunkState::decoded) grows without a test of its own and is at most as long as the raw bytes it was decoded from.  So the
+    # raw buffer is never shrunk while a message is being framed — except when a whole interim (1xx) response is discarded.
+    frx = fn(ctx, HC, "frameResponse", HCF)
+    raw = next((p_["n"] for p_ in frx.params if p_["t"].startswith("std::basic_string<char> &")), None)
+    nsh = 0
+    for g in (frx, fn(ctx, HC, "advanceChunked", HCF), ex):
+        names = {raw, "buf", "responseData"} if g is not ex else {"responseData"}
+        for e in g.stmts():
+            n = e.node
+            if n.get("k") == "mcall" and last(n.get("callee", "")) in ("erase", "clear", "resize", "assign", "swap", "pop_back", "shrink_to_fit") and key_of(n.get("obj")) in names:
+                nsh += 1
+                r.instance()
+                interim = any(t and any(const_value(q[2]) in (100, 200) and "statusCode" in show(q[1]) for q in common.cmp_both(c)) for (c, t) in dominating_facts(g, e))
+                r.expect(interim, g, e, "raw response buffer shrunk during framing", "%s removes bytes from the raw receive buffer (`%s`) while a message is being framed: the only size test on receipt is on that buffer, so "
+                         "after this the decoded chunked body (ChunkState::decoded) grows without bound — a chunked response far beyond the configured cap is buffered and returned" % (last(g.name), show(n)[:50]),
+                         okdesc="%s: raw buffer shrunk only to discard an interim response" % last(g.name))
+    grow = [e for e in fn(ctx, HC, "advanceChunked", HCF).stmts() if e.node.get("k") == "mcall" and last(e.node.get("callee", "")) == "append" and "decoded" in show(e.node.get("obj") or {})]
+    if nsh < 1 or not grow:
+        raise AnalysisBroken("client framing: raw-buffer shrink sites (%d) / decoded-body growth (%d) not found" % (nsh, len(grow)))
     others = [e for e in ex.stmts() if e not in app and ((e.node.get("k") == "mcall" and last(e.node.get("callee", "")) in ("append", "push_back", "insert") and key_of(e.node.get("obj")) == "responseData") or
                                                        (e.node.get("k") == "opcall" and e.node.get("op") == "+=" and key_of(e.node["args"][0]) == "responseData"))]
     r.instance()
@@ -548,8 +570,8 @@ def r4(ctx, r):
                 r.expect(covering_try(f, e, exc), f, e, "uncaught %s from %s" % (last(exc), nm or "throw"),
                          "%s runs on the transport's I/O thread (reached from the %s callback) and %s can throw %s, which no enclosing try block catches: a peer-chosen input ends the I/O thread for every connection"
                          % (short(f.name), what, ("std::" + nm) if nm else "the throw expression", exc), okdesc="%s: %s → %s caught" % (last(f.name), nm or "throw", last(exc)))
-    if n_sites < 3:
-        raise AnalysisBroken("only %d throwing primitives found on the I/O-thread path (floor 3)" % n_sites)
+    if n_sites < 2:
+        raise AnalysisBroken("only %d throwing primitives found on the I/O-thread path (floor 2)" % n_sites)
     r.note("I/O-thread functions analysed: " + ", ".join(sorted({last(v[0].name) for v in funcs.values()})))
 
 
